@@ -34,7 +34,7 @@ def run_one(meta_path):
                                    capture_output=True, text=True)
                 if r.returncode != 0:
                     return name, "DOES-NOT-COMPILE", r.stderr[-500:]
-        env = dict(os.environ, MMD_REPO=tmp, MMD_EVIDENCE=os.path.join(tmp, "ev"))
+        env = dict(os.environ, MMD_REPO=tmp, MMD_EVIDENCE=os.path.join(tmp, "ev"), MMD_CACHE=os.path.join(tmp, "cache"))
         out = []
         ok = True
         for pid in ([meta["property"]] if isinstance(meta["property"], str) else meta["property"]):
